@@ -569,7 +569,8 @@ class MonitoredFocusList(MonitoredList[_T], typing.Generic[_T]):
         MonitoredFocusList([-3, -2, -1, 0, 1, 2, 3], focus=5)
         """
         if not self:
-            return None
+            # no focus to keep track of; the built-in list still validates the arguments
+            return super().sort(**kwargs)
         value = self[self._focus]
         rval = super().sort(**kwargs)
         # the focus follows the object itself, not the first item that compares equal to it
